@@ -313,6 +313,69 @@ def script_out(rng, kinds):
     return {"members": members, "steps": steps, "watch": 3000, "settle": 20}
 
 
+def deep_feedback(rng):
+    """Well-formed feedback about packets that were really sent, with adversarial CONTENT: identical arrival times, arrival
+    times running backwards, the largest deltas, reference times jumping to either end of their range, repeated and
+    overlapping feedback, everything lost - the inputs that reach the stages behind the feedback parsers."""
+    raws = []
+    for base in (0, 3, 12):
+        for ref in ([0, 0, 5], [0, 0, 0], [0xFF, 0xFF, 0xFF], [0x80, 0, 0], [0, 0, 4]):
+            for pattern in ("zero", "max", "neg", "posneg", "firstbig", "lost"):
+                n = rng.choice([2, 5, 9])
+                if pattern == "lost":
+                    chunks, deltas = rl(0, n), []
+                elif pattern in ("zero", "max"):
+                    chunks, deltas = rl(1, n), [0 if pattern == "zero" else 255] * n
+                elif pattern == "firstbig":
+                    chunks, deltas = sv2(([2] + [1] * 6)[:7]), u16(0x7FFF) + [0] * 6
+                    n = 7
+                else:
+                    chunks = rl(2, n)
+                    deltas = []
+                    for i in range(n):
+                        deltas += u16(0x8000 if pattern == "neg" or i % 2 else 0x7FFF)
+                body = u32(7) + u32(1) + u16(base) + u16(n) + ref + [rng.randrange(256)] + chunks + deltas
+                raws.append(hdr(15, 205, body))
+    for begin in (100, 103, 65530):
+        for rts in (0, 0x00050000, 0xFFFFFFFF, 0x80000000):
+            for pattern in ("same", "desc", "unknown", "late", "lost"):
+                n = rng.choice([2, 4, 7])
+                blk = u32(1) + u16(begin) + u16(n)
+                for i in range(n):
+                    ato = {"same": 100, "desc": 0x1FF0 - 200 * i, "unknown": 0x1FFF, "late": 0x1FFE, "lost": 0}[pattern]
+                    blk += u16((0 if pattern == "lost" else 0x8000) | (rng.randrange(4) << 13) | (ato & 0x1FFF))
+                while len(blk) % 4:
+                    blk += [0]
+                raws.append(hdr(11, 205, u32(7) + blk + u32(rts)))
+    rng.shuffle(raws)
+    return raws
+
+
+def script_deep(rng, kinds, raws):
+    """A prior history of real sends (transport-wide numbers 0.., RTP numbers 101..) and then adversarial feedback about them."""
+    twcc = 7 if "twcchdr" in kinds else 0
+    members = [{"k": k, "o": {"ivl": 1, "size": 64, "k": 2, "n": 1, "rate": 20_000_000}} for k in kinds]
+    steps = [{"a": "bindw"}, {"a": "bindr"},
+             {"a": "bindl", "s": 1, "nack": True, "twcc": twcc, "rtx": False, "fec": False},
+             {"a": "bindm", "s": 2, "nack": True, "twcc": 7, "pli": False}]
+    w = 100
+    for i, raw in enumerate(raws):
+        if i % 4 == 0:          # keep sending: the feedback is about packets still in the sender's history
+            for _ in range(6):
+                w += 1
+                steps.append({"a": "wrtp", "s": 1, "w": w % 65536, "id": w, "len": rng.choice([30, 1200]), "shape": 0, "fail": False})
+            steps.append({"a": "wait", "ms": 1})
+        steps.append({"a": "rrtcp", "s": 2, "raw": raw, "id": i, "fail": False})
+        if rng.random() < 0.2:
+            steps.append({"a": "rrtcp", "s": 2, "raw": raw, "id": i, "fail": False})     # the same feedback again
+    steps += [{"a": "wait", "ms": 20}, {"a": "wrtp", "s": 1, "w": (w + 1) % 65536, "id": 9999, "len": 10, "shape": 0, "fail": False},
+              {"a": "rrtcp", "s": 2, "kind": "sr", "id": 1, "fail": False}, {"a": "wait", "ms": 5}, {"a": "close"}]
+    return {"members": members, "steps": steps, "watch": 3000, "settle": 20}
+
+
+DEEP_TARGETS = [["cc", "twcchdr"], ["ccleaky", "twcchdr"], ["rtpfb", "twcchdr"], ["cc"], ["ccleaky"], ["rtpfb"], ["stats", "cc", "twcchdr"]]
+
+
 def run_batch(ctx, scripts, tag):
     return vlib.run_batch(ctx, culprit_hint=vlib.univ_culprit_hint, tag=tag, scripts=scripts, pkg_rel="", pkgname="interceptor_test",
                           files=["zz_verif_univ_test.go", "common:zz_verif_pkt_test.go.tpl"],
@@ -356,6 +419,10 @@ def run(ctx):
         scripts.append(script_out(rng, kinds))
     for kinds in [["rfc8888"], ["rrecv"], ["nackgen"], ["stats"], ["twccsend"], ALL_CHAIN]:
         scripts.append(script_flood(rng, kinds, 400 if ctx.quick else 3000))
+    deep = deep_feedback(rng)
+    for kinds in DEEP_TARGETS:
+        for ch in chunks(deep if not ctx.quick else rng.sample(deep, 80), 40):
+            scripts.append(script_deep(rng, kinds, ch))
     rng.shuffle(scripts)
     for i, ch in enumerate(chunks(scripts, 150)):
         run_batch(ctx, ch, "G-shapes-%d" % i)
